@@ -38,6 +38,8 @@ def run(prog, tier, res):
     R3 = res.rule("C06.R3", "each struct field is the documented little-endian bit range", 18)
     R4 = res.rule("C06.R4", "ordering guards on the accept path equal the spec (operands and strictness)", 5)
     R5 = res.rule("C06.R5", "accessors return their field; TrgPacket wrappers forward to the same-named accessor", 36)
+    from .common import check_try_from_wrapper as _ctw
+    _ctw(prog, res, R5, '<alpha_g_detector::trigger::TrgPacket as std::convert::TryFrom<&[u8]>>::try_from', '<alpha_g_detector::trigger::TrgV3Packet as std::convert::TryFrom<&[u8]>>::try_from', 'V3', '[0..L)')
 
     oks = an.ok_sites()
     if len(oks) != 1:
